@@ -180,7 +180,7 @@ impl Prop for C17 {
     fn runs(&self, tier: Tier) -> u64 {
         match tier {
             Tier::Quick => 60_000,
-            Tier::Thorough => 5_000_000,
+            Tier::Thorough => 2_500_000,
         }
     }
     fn gen(&self, rng: &mut Rng, _tier: Tier, _idx: u64) -> Case {
